@@ -467,6 +467,68 @@ def _min(a, axis=None, **kw):
     return _np.min(conc(_np.asarray(a)), axis=axis, **kw)
 
 
+def sort_network(vals):
+    """Ascending order statistics of a list of (symbolic) scalars as min/max terms (no forks)."""
+    v = list(vals)
+    n = len(v)
+    for i in range(n):
+        for j in range(n - 1 - i):
+            lo, hi = _MINIMUM(v[j], v[j + 1]), _MAXIMUM(v[j], v[j + 1])
+            v[j], v[j + 1] = lo, hi
+    return v
+
+
+def _order_stat_along(a, axis, fn):
+    a = _np.asarray(a, dtype=object)
+    a = _np.moveaxis(a, axis, -1)
+    first = fn(sort_network(list(a[(0,) * (a.ndim - 1)])))
+    multi = isinstance(first, (list, tuple))
+    k = len(first) if multi else 1
+    out = _np.empty(((k,) if multi else ()) + a.shape[:-1], dtype=object)
+    for idx in _np.ndindex(*a.shape[:-1]):
+        r = fn(sort_network(list(a[idx])))
+        if multi:
+            for q in range(k):
+                out[(q,) + idx] = r[q]
+        else:
+            out[idx] = r
+    return out if out.shape != () else out[()]
+
+
+def _median(a, axis=None, **kw):
+    if has_sym(a):
+        _used('numpy.median (order statistics as min/max terms)')
+        if axis is None:
+            a, axis = _np.asarray(a, dtype=object).ravel(), 0
+
+        def med(s):
+            n = len(s)
+            return s[n // 2] if n % 2 else (s[n // 2 - 1] + s[n // 2]) / 2
+        return _order_stat_along(a, axis, med)
+    return _np.median(conc(_np.asarray(a)), axis=axis, **kw)
+
+
+def _percentile(a, q, axis=None, **kw):
+    if has_sym(a):
+        _used('numpy.percentile (linear interpolation between order statistics as min/max terms)')
+        if axis is None:
+            a, axis = _np.asarray(a, dtype=object).ravel(), 0
+        qs = list(_np.atleast_1d(q))
+
+        def pct(s):
+            n = len(s)
+            res = []
+            for qq in qs:
+                pos = float(qq) / 100.0 * (n - 1)
+                lo = int(_np.floor(pos))
+                hi = min(lo + 1, n - 1)
+                frac = pos - lo
+                res.append(s[lo] + (s[hi] - s[lo]) * frac if frac else s[lo])
+            return res if not _np.isscalar(q) else res[0]
+        return _order_stat_along(a, axis, pct)
+    return _np.percentile(conc(_np.asarray(a)), q, axis=axis, **kw)
+
+
 _MAXIMUM = _mk_minmax(_np.maximum, True)
 _MINIMUM = _mk_minmax(_np.minimum, False)
 
@@ -1230,7 +1292,7 @@ def build():
         'array_equal': _array_equal, 'array_equiv': _array_equiv,
         'count_nonzero': _count_nonzero, 'where': _where, 'argwhere': _argwhere,
         'nonzero': _nonzero, 'argmax': _argmax, 'argmin': _argmin,
-        'max': _max, 'min': _min, 'amax': _max, 'amin': _min,
+        'max': _max, 'min': _min, 'amax': _max, 'amin': _min, 'median': _median, 'percentile': _percentile,
         'isscalar': _isscalar,
         'linalg': np_linalg, 'random': rnd,
     }
